@@ -156,7 +156,18 @@ func scanMetaOutMode(c *core.Ctx, collect func(f *types.Func, idx int, ok bool))
 			if u, ok := e.(*ast.UnaryExpr); ok && u.Op == token.AND {
 				e = unparen(u.X)
 			}
-			return identObj(info, e) == outP
+			if identObj(info, e) == outP {
+				return true
+			}
+			// a local view of the output's metadata: metaOut := opOut.MetaData
+			if o := identObj(info, e); o != nil {
+				if d := singleDef(info, fd, o); d != nil {
+					if ds, ok := unparen(d).(*ast.SelectorExpr); ok && ds.Sel.Name == "MetaData" && identObj(info, ds.X) == outP {
+						return true
+					}
+				}
+			}
+			return false
 		}
 		event := func(nd ast.Node) bool {
 			hit := false
@@ -246,6 +257,33 @@ func scanMetaOutMode(c *core.Ctx, collect func(f *types.Func, idx int, ok bool))
 			cond, ok := b.Nodes[len(b.Nodes)-1].(ast.Expr)
 			if !ok {
 				return -1
+			}
+			// a comparison kept in a local (`inPlace := ctIn == opOut; if !inPlace`): the edge on which the local says
+			// "same object"
+			{
+				e, neg := unparen(cond), false
+				for {
+					u, ok := e.(*ast.UnaryExpr)
+					if !ok || u.Op != token.NOT {
+						break
+					}
+					neg = !neg
+					e = unparen(u.X)
+				}
+				if o := identObj(info, e); o != nil {
+					if d := singleDef(info, fd, o); d != nil {
+						if db, ok := unparen(d).(*ast.BinaryExpr); ok && (db.Op == token.EQL || db.Op == token.NEQ) && (isOut(db.X) || isOut(db.Y)) && !isNilIdent(db.X) && !isNilIdent(db.Y) {
+							same := db.Op == token.EQL // the local is true when they are the same object
+							if neg {
+								same = !same
+							}
+							if same {
+								return 0
+							}
+							return 1
+						}
+					}
+				}
 			}
 			be, ok := unparen(cond).(*ast.BinaryExpr)
 			if !ok || (be.Op != token.EQL && be.Op != token.NEQ) || !(isOut(be.X) || isOut(be.Y)) || isNilIdent(be.X) || isNilIdent(be.Y) {
